@@ -260,6 +260,25 @@ class Catalogue:
         if m: return [q[:m.start(3)] + "$unusedVar: Int, " + q[m.start(3):]]
         m2 = re.search(r"^(query|mutation) (Op\d+) ", q, re.M)
         if m2: return [q[:m2.end() - 1] + "($unusedVar: Int) " + q[m2.end():]]
+    def m_list_item_after_variable(self, q):
+        """an ill-typed constant item placed AFTER (and before) a well-typed variable in the same list literal"""
+        res = []
+        def add_var(q, decl):
+            m = self._op_header(q)
+            if m: return q[:m.start(3)] + decl + ", " + q[m.start(3):]
+            m2 = re.search(r"^(query|mutation) (Op\d+) ", q, re.M)
+            if m2: return q[:m2.end() - 1] + f"({decl}) " + q[m2.end():]
+            if q.lstrip().startswith("{"): return f"query Qz({decl}) " + q.lstrip()
+            return None
+        plans = [("echo6", "$w: Int", '[$w, "oops"]'), ("echo6", "$w: Int", '["oops", $w]'), ("echo8", "$w: [Int]", '[$w, ["x"]]'),
+                 ("echo7", "$w: String!", "[$w, 5]"), ("echo10", "$w: " + self.sg.inputs[0]["name"], '[$w, {nope_field: 1}]')]
+        for fn, decl, use in plans:
+            if fn in self.sg.echo:
+                for m in _sites(q, r"\b" + fn + r"\b(?!\()")[:1]:
+                    q2 = add_var(_insert(q, m.end(), f"(v: {use})"), decl)
+                    if q2: res.append(q2)
+        return res
+
     def m_variable_usage_not_allowed(self, q):
         res = []
         m = self._op_header(q)
